@@ -242,7 +242,7 @@ def _clip_pose(v, maxnorm=10.0):
 
 @st.composite
 def pose_pairs(draw):
-    kind = draw(st.sampled_from(["generic"] * 6 + ["indep"] * 5 + ["same", "same_rot", "same_pos", "near", "near"]))
+    kind = draw(st.sampled_from(["generic"] * 6 + ["indep"] * 5 + ["same", "same_rot", "same_pos", "near", "near", "near_rot", "near_rot"]))
     a = draw(generic_poses() if kind == "generic" else poses())
     if kind == "generic":
         b = draw(generic_poses())
@@ -254,6 +254,11 @@ def pose_pairs(draw):
         b = np.concatenate([draw(G.positions(10.0)), a[3:]])
     elif kind == "same_pos":
         b = np.concatenate([a[:3], draw(G.rotvecs_below(MAXANG))])
+    elif kind == "near_rot":
+        # another position, and an orientation that is the same up to a few parts in 1e8 .. 1e4 of each rotation
+        # coordinate (the same attitude measured twice): nearly, not exactly, a pure translation apart
+        rel = np.array([draw(G.signed_log_uniform(1e-8, 1e-4)) for _ in range(3)])
+        b = _clip_pose(np.concatenate([draw(G.positions(10.0)), a[3:] * (1.0 + rel)]))
     else:
         mag = draw(G.log_uniform(1e-9, 1e-2))
         d = draw(G.vec6(1.0))
